@@ -229,3 +229,70 @@ package go_clipper2
 //@   ensures [range] 0 <= result && result <= high && !flags[result]
 //@   ensures [prior-back] result < current ==> forall(k, result+1, current, flags[k])
 //@   ensures [prior-wrap] result >= current ==> (forall(k, 0, current, flags[k]) && forall(k, result+1, high+1, flags[k]))
+
+//@ func SimplifyPath64
+//@   props C16 C03
+//@   pure
+//@   requires domPath(path, 29)
+//@   loop 0 invariant [shape] 1 <= i && i <= high && len(dsq) == l && len(flags) == l && l == len(path) && high == l-1 && l >= 4 && curr == 0
+//@   loop 0 invariant [unflagged] forall(k, 0, l, !flags[k])
+//@   loop 0 invariant [ends-max] !isClosedPath ==> (dsq[0] == 1.7976931348623157e308 && dsq[high] == 1.7976931348623157e308)
+//@   loop 0 decreases high - i
+//@   loop 1 invariant [shape] len(dsq) == l && len(flags) == l && l == len(path) && high == l-1 && l >= 4 && 0 <= curr && curr <= high
+//@   loop 1 invariant [curr-live] !flags[curr]
+//@   loop 1 invariant [ends-live] !isClosedPath && epsSq < 1.7976931348623157e308 ==> (!flags[0] && !flags[high] && dsq[0] == 1.7976931348623157e308 && dsq[high] == 1.7976931348623157e308)
+//@   loop 1.0 invariant [shape] len(dsq) == l && len(flags) == l && l == len(path) && high == l-1 && l >= 4 && 0 <= curr && curr <= high && 0 <= start && start <= high
+//@   loop 1.0 invariant [curr-live] !flags[curr]
+//@   loop 1.0 invariant [flags-frame] !isClosedPath && epsSq < 1.7976931348623157e308 ==> (!flags[0] && !flags[high] && dsq[0] == 1.7976931348623157e308 && dsq[high] == 1.7976931348623157e308)
+//@   loop 2 invariant [filter] len(result) <= _i && len(flags) == l && l == len(path)
+//@   loop 2 invariant [members] forall(k, 0, len(result), memberOf(result[k], path))
+//@   loop 2 invariant [open-first] (!flags[0] && _i > 0) ==> (len(result) > 0 && result[0] == path[0])
+//@   loop 2 invariant [count2] (!flags[0] && !flags[high] && _i > high && high > 0) ==> len(result) >= 2
+//@   loop 2 invariant [open-last] (_i > 0 && !flags[_i-1]) ==> (len(result) > 0 && result[len(result)-1] == path[_i-1])
+//@   ensures [short] len(path) < 4 ==> same(result, path)
+//@   ensures [size] len(result) <= len(path)
+//@   ensures [members] forall(k, 0, len(result), memberOf(result[k], path))
+//@   ensures [open-ends] (!isClosedPath && len(path) >= 4 && epsilon*epsilon < 1.7976931348623157e308) ==> (len(result) >= 2 && result[0] == path[0] && result[len(result)-1] == path[len(path)-1])
+//@   expect  [open-ends-any-eps] (!isClosedPath && len(path) >= 4) ==> (len(result) >= 2 && result[0] == path[0] && result[len(result)-1] == path[len(path)-1])
+
+//@ spec memberOfD(p PointD, path PathD) bool = exists(j, 0, len(path), path[j] == p)
+
+//@ func SimplifyPathD
+//@   props C16 C03
+//@   pure
+//@   loop 0 invariant [shape] 1 <= i && i <= high && len(dsq) == length && len(flags) == length && length == len(path) && high == length-1 && length >= 4 && curr == 0
+//@   loop 0 invariant [unflagged] forall(k, 0, length, !flags[k])
+//@   loop 0 invariant [ends-max] !isClosedPath ==> (dsq[0] == 1.7976931348623157e308 && dsq[high] == 1.7976931348623157e308)
+//@   loop 0 decreases high - i
+//@   loop 1 invariant [shape] len(dsq) == length && len(flags) == length && length == len(path) && high == length-1 && length >= 4 && 0 <= curr && curr <= high
+//@   loop 1 invariant [curr-live] !flags[curr]
+//@   loop 1 invariant [ends-live] !isClosedPath && epsSq < 1.7976931348623157e308 ==> (!flags[0] && !flags[high] && dsq[0] == 1.7976931348623157e308 && dsq[high] == 1.7976931348623157e308)
+//@   loop 1.0 invariant [shape] len(dsq) == length && len(flags) == length && length == len(path) && high == length-1 && length >= 4 && 0 <= curr && curr <= high && 0 <= start && start <= high
+//@   loop 1.0 invariant [curr-live] !flags[curr]
+//@   loop 1.0 invariant [flags-frame] !isClosedPath && epsSq < 1.7976931348623157e308 ==> (!flags[0] && !flags[high] && dsq[0] == 1.7976931348623157e308 && dsq[high] == 1.7976931348623157e308)
+//@   loop 2 invariant [filter] len(result) <= _i && len(flags) == length && length == len(path)
+//@   loop 2 invariant [members] forall(k, 0, len(result), memberOfD(result[k], path))
+//@   loop 2 invariant [open-first] (!flags[0] && _i > 0) ==> (len(result) > 0 && result[0] == path[0])
+//@   loop 2 invariant [count2] (!flags[0] && !flags[high] && _i > high && high > 0) ==> len(result) >= 2
+//@   loop 2 invariant [open-last] (_i > 0 && !flags[_i-1]) ==> (len(result) > 0 && result[len(result)-1] == path[_i-1])
+//@   ensures [short] len(path) < 4 ==> same(result, path)
+//@   ensures [size] len(result) <= len(path)
+//@   ensures [members] forall(k, 0, len(result), memberOfD(result[k], path))
+//@   ensures [open-ends] (!isClosedPath && len(path) >= 4 && epsilon*epsilon < 1.7976931348623157e308) ==> (len(result) >= 2 && result[0] == path[0] && result[len(result)-1] == path[len(path)-1])
+//@   expect  [open-ends-any-eps] (!isClosedPath && len(path) >= 4) ==> (len(result) >= 2 && result[0] == path[0] && result[len(result)-1] == path[len(path)-1])
+
+//@ func PerpendicDistFromLineSqrD
+//@   props C16
+//@   ensures [degenerate] line1 == line2 ==> result == 0
+//@   ensures [value] line1 != line2 ==> result * ((line2.X-line1.X)*(line2.X-line1.X) + (line2.Y-line1.Y)*(line2.Y-line1.Y)) == ((pt.X-line1.X)*(line2.Y-line1.Y) - (line2.X-line1.X)*(pt.Y-line1.Y)) * ((pt.X-line1.X)*(line2.Y-line1.Y) - (line2.X-line1.X)*(pt.Y-line1.Y))
+
+//@ func SimplifyPaths64
+//@   props C16 C03
+//@   requires forall(k, 0, len(paths), domPath(paths[k], 29))
+//@   loop 0 invariant [each] len(result) == len(paths) && forall(k, 0, _i, same(result[k], SimplifyPath64(paths[k], epsilon, isClosedPaths)))
+//@   ensures [path-by-path] len(result) == len(paths) && forall(k, 0, len(paths), same(result[k], SimplifyPath64(paths[k], epsilon, isClosedPaths)))
+
+//@ func SimplifyPathsD
+//@   props C16 C03
+//@   loop 0 invariant [each] len(result) == len(paths) && forall(k, 0, _i, same(result[k], SimplifyPathD(paths[k], epsilon, isClosedPaths)))
+//@   ensures [path-by-path] len(result) == len(paths) && forall(k, 0, len(paths), same(result[k], SimplifyPathD(paths[k], epsilon, isClosedPaths)))
